@@ -28,7 +28,7 @@ class Mod:
 
 class BindGen:
     def __init__(self, rng: random.Random, class_imports: bool = True, star: bool = True,
-                 relative: bool = True, reimport: bool = True) -> None:
+                 relative: bool = True, reimport: bool = True, reexports: bool = True) -> None:
         self.rng = rng
         self.n = 0
         self.mods: List[Mod] = []
@@ -37,6 +37,7 @@ class BindGen:
         self.star = star
         self.relative = relative
         self.reimport = reimport
+        self.reexports = reexports
 
     def fresh(self, prefix: str) -> str:
         self.n += 1
@@ -183,6 +184,20 @@ class BindGen:
         cb: Dict[str, str] = {}
         if self.class_imports and rng.random() < 0.4:
             self.imports(m, cscope, done, mods, cb, ind, out, rng.randint(1, 2))
+        # a name used with its module-level meaning (base of a nested class) and only LATER bound in this class body
+        names_done = {d.q for d in done}
+        elig = [d for d in done if d.classes and
+                all(".".join(d.q.split(".")[:j]) in names_done for j in range(1, d.q.count(".") + 1))]
+        if m.classes and elig and depth < 2 and rng.random() < 0.2:
+            n = rng.choice(m.classes)
+            if n not in cb:
+                inner = self.fresh("C")
+                out += [ind + "class %s(%s):" % (inner, n), ind + "    " + "'" * 3 + "ID:%s" % inner + "'" * 3]
+                self.bind(m, cscope, inner, "class", out, cb)
+                t = rng.choice(elig)
+                y = rng.choice(t.classes)
+                out.append(ind + "from %s import %s as %s" % (t.q, y, n))
+                self.bind(m, cscope, n, "from_definer", out, cb)
         for _ in range(rng.randint(0, 3)):
             k = rng.choice(["meth", "var", "nested"])
             if k == "meth":
@@ -222,5 +237,16 @@ class BindGen:
         if rng.random() < 0.25:
             own = [n for n in m.classes + m.funcs + m.vars]
             m.has_all = sorted(rng.sample(own, rng.randint(1, len(own)))) if own else None
+            if m.has_all is not None and self.reexports and rng.random() < 0.5:
+                # also list names this module merely imported: pydoctor then MOVES those objects here (re-export)
+                # each object has at most one re-exporter (definition names are unique, aliases are not re-exported)
+                done_names = getattr(self, "_reexported", set())
+                self._reexported = done_names
+                imp = [n for n, f in m.bound.items() if f in ("from_definer", "from_definer_relative", "star")
+                       and not n.startswith("_") and n not in done_names and n[0] in "CFV" and n[1:].isdigit()]
+                if imp:
+                    chosen = rng.sample(imp, rng.randint(1, min(2, len(imp))))
+                    done_names.update(chosen)
+                    m.has_all = sorted(set(m.has_all) | set(chosen))
             if m.has_all is not None:
                 out.append("__all__ = %r" % m.has_all)
